@@ -1,6 +1,7 @@
 package rules
 
 import (
+	"go/constant"
 	"go/token"
 	"go/types"
 	"strings"
@@ -372,4 +373,26 @@ func fromGetBoxDeep(c *core.Ctx, v ssa.Value, depth int) bool {
 		}
 	}
 	return false
+}
+
+// intDivisions lists the integer divisions / remainders of fn whose divisor is not a non-zero constant.
+func intDivisions(fn *ssa.Function) []*ssa.BinOp {
+	var out []*ssa.BinOp
+	for _, b := range fn.Blocks {
+		for _, in := range b.Instrs {
+			bo, ok := in.(*ssa.BinOp)
+			if !ok || (bo.Op != token.QUO && bo.Op != token.REM) {
+				continue
+			}
+			bt, ok := bo.X.Type().Underlying().(*types.Basic)
+			if !ok || bt.Info()&types.IsInteger == 0 {
+				continue
+			}
+			if k, isC := bo.Y.(*ssa.Const); isC && k.Value != nil && constant.Sign(k.Value) != 0 {
+				continue
+			}
+			out = append(out, bo)
+		}
+	}
+	return out
 }
